@@ -7,6 +7,7 @@ from sa.rules import pipeline as P
 from sa.rules import schematype as S
 from sa.rules import tokenizer_rules as K
 from sa.rules import synth_rules as SY
+from sa.rules import ranges as RG
 from sa.rules import traversal as T
 from sa.rules import validators as V
 
@@ -48,5 +49,7 @@ def main(tier):
     chk.run("R-TOKENSHAPE", S.tokenshape, r, floor=3)
     chk.run("R-FOREIGNFILE", S.foreignfile, r, floor=8)
     chk.run("R-SYNTHMARK", SY.synthmark, r, floor=10)
+    chk.run("R-NEGEXP", RG.negexp, r, floor=3)
+    chk.run("R-TEXTREAD", S.textread, r, floor=1)
     chk.run("R-LINESPLIT", K.linesplit, r, side="printer", floor=1)
     return chk.finish()
